@@ -67,6 +67,8 @@ def shard_seed(seed, check_id, shard):
 def load_check(check_id):
     import importlib
 
+    import vlib.warm  # noqa: F401  (heavy imports complete before any per-case time limit can fire)
+
     return importlib.import_module("checks." + check_id.lower())
 
 
@@ -384,7 +386,7 @@ def run_check(check_id, tier, seed, replay=None):
 
     ctx = mp.get_context("forkserver")
     try:
-        ctx.set_forkserver_preload(["vlib.runner", "hypothesis"])
+        ctx.set_forkserver_preload(["vlib.runner", "hypothesis", "vlib.warm"])
     except Exception:
         pass
     agg = {
